@@ -300,6 +300,9 @@ def case(ctx, f):
     tc = set()
     for d in f["schemas"]:
         tc |= c17gen.type_classes(d)
+        if d.get("tags", {}).get("long_names"):
+            mx = max(len(x["name"]) for x in d["types"] + d["entities"])
+            tc.add("identifier-length:%s" % ("60-79" if mx < 80 else "80-99" if mx < 100 else ">=100"))
         if d.get("tags", {}).get("case_noise"):
             tc.add("mixed-case-declaration")
     classes += sorted(tc)
